@@ -315,9 +315,12 @@ type VC struct {
 	notes     []string
 	bounded   []Term // stack of bound variable names (informational)
 	defs      map[string]string
+	heapTypes map[string]types.Type
 	asserted  map[string]int
 	lets      map[string][]letDef // binder name -> let definitions made inside it
 	binders   []string            // stack of open binders
+	letStack  [][]letDef
+	recordPass1 bool
 }
 
 type letDef struct{ name, expr string }
@@ -327,6 +330,7 @@ func (vc *VC) openBinder(name string) {
 		vc.lets = map[string][]letDef{}
 	}
 	vc.binders = append(vc.binders, name)
+	vc.letStack = append(vc.letStack, nil)
 	vc.noName++
 }
 
@@ -336,7 +340,15 @@ func (vc *VC) closeBinder(body Term) (Term, []string) {
 	name := vc.binders[len(vc.binders)-1]
 	vc.binders = vc.binders[:len(vc.binders)-1]
 	vc.noName--
-	ls := vc.lets[name]
+	ls := vc.letStack[len(vc.letStack)-1]
+	vc.letStack = vc.letStack[:len(vc.letStack)-1]
+	if vc.recordPass1 {
+		// values of old(e) computed in this pass are reused in the second pass, inside the
+		// binder of the same name: keep the definitions they may mention
+		vc.lets[name] = append(vc.lets[name], ls...)
+	} else if p1 := vc.lets[name]; len(p1) > 0 {
+		ls = append(append([]letDef{}, p1...), ls...)
+	}
 	s := body.S
 	for i := len(ls) - 1; i >= 0; i-- {
 		s = "(let ((" + ls[i].name + " " + ls[i].expr + ")) " + s + ")"
@@ -525,8 +537,8 @@ func (vc *VC) name(prefix string, t Term) Term {
 		}
 		vc.nfresh++
 		n := fmt.Sprintf("l!%d", vc.nfresh)
-		b := vc.binders[len(vc.binders)-1]
-		vc.lets[b] = append(vc.lets[b], letDef{n, t.S})
+		k := len(vc.letStack) - 1
+		vc.letStack[k] = append(vc.letStack[k], letDef{n, t.S})
 		return Term{n, t.Sort}
 	}
 	vc.nfresh++
@@ -752,10 +764,23 @@ type heapID struct {
 }
 
 func (vc *VC) objHeap(t types.Type) heapID {
-	return heapID{"H_" + mangle(shortTypeKey(t)), arraySort(SInt, vc.sortOf(t))}
+	h := heapID{"H_" + mangle(shortTypeKey(t)), arraySort(SInt, vc.sortOf(t))}
+	vc.noteHeapType(h.name, t)
+	return h
 }
 func (vc *VC) arrHeap(elem types.Type) heapID {
-	return heapID{"A_" + mangle(shortTypeKey(elem)), arraySort(SInt, arraySort(SInt, vc.sortOf(elem)))}
+	h := heapID{"A_" + mangle(shortTypeKey(elem)), arraySort(SInt, arraySort(SInt, vc.sortOf(elem)))}
+	vc.noteHeapType(h.name, elem)
+	return h
+}
+
+func (vc *VC) noteHeapType(name string, t types.Type) {
+	if vc.heapTypes == nil {
+		vc.heapTypes = map[string]types.Type{}
+	}
+	if _, ok := vc.heapTypes[name]; !ok {
+		vc.heapTypes[name] = t
+	}
 }
 func (vc *VC) mapHeaps(m *types.Map) (d, v, l heapID) {
 	k := mangle(shortTypeKey(m.Key())) + "_" + mangle(shortTypeKey(m.Elem()))
